@@ -269,6 +269,28 @@ func vfC01Episode(rec *evid.Rec, ep int) {
 				fail("C01/size-attr-mismatch/GETATTR", fmt.Sprintf("size %d, model %d", r.Attr.Size, size))
 			}
 			rec.Distinct("GETATTR|" + cfg)
+		case k < 98: // CREATE again over the existing file: its data must survive unless a size is given
+			how := uint32(rng.Intn(3))
+			var sa xdrw.Sattr3
+			trunc := how != 2 && rng.Intn(3) == 0
+			if trunc {
+				sa.Size = xdrw.U64p(0)
+			}
+			ops = append(ops, fmt.Sprintf("CREATE %s again how=%d size0=%v", f.name, how, trunc))
+			rec.Eval(1)
+			r, err := c.create(root, f.name, how, sa, [8]byte{byte(i)})
+			if err != nil || r == nil {
+				fail("C01/create-no-reply", fmt.Sprintf("%v", err))
+				return
+			}
+			if r.Status == 0 && trunc && how == 0 {
+				f.data = nil // an explicit size of 0 on UNCHECKED CREATE truncates
+			}
+			if r.Status == 0 && r.FHPresent {
+				f.fh = vfFH(r.FH)
+			}
+			checkBackend(f, fmt.Sprintf("CREATE-again-how=%d", how))
+			rec.Distinct(fmt.Sprintf("CREATE-again|how=%d|size0=%v|st=%d|%s", how, trunc, r.Status, cfg))
 		default: // CREATE another file, or re-look-up the handle
 			if len(files) < 3 {
 				rec.Eval(1)
